@@ -8,6 +8,7 @@ posting sequence is checked by the harness on the reported numbers.
 import Pumpkin.Spec.Basic
 import Pumpkin.Check.Oracle
 import Pumpkin.Model.PropagationCompile
+import Pumpkin.Model.AssignmentsState
 
 namespace Pumpkin.C12
 
@@ -66,5 +67,56 @@ theorem root_state_encloses (m : Model) (hw : ∀ c ∈ m.cons, Pg.consWf m.doms
 
 example : Pg.rootFix [[0, 1, 2, 3], [0, 1, 2, 3]] [Cons.linLe [⟨1, 0, 0⟩, ⟨1, 0, 1⟩] 1, Cons.linNe [⟨1, 0, 0⟩] 0]
     = some (some [[1], [0]]) := by decide
+
+/-! ### the domain store itself (`engine/cp/assignments.rs`, `Model/Assignments.lean`)
+
+The bounds the API reports are read from `Assignments`; the following hold for the model of its update
+lists after **every** sequence of operations (variable creation at the root, posting predicates of the
+four kinds — also ones emptying a domain —, opening decision levels, backtracking), and the model is
+tied to the real store by exact correspondence of every observable after every operation (`asg`
+records). -/
+
+/-- The reported bounds of a non-empty domain are values of the domain (never a hole, never outside),
+and every value of the domain lies between them. -/
+theorem store_bounds_tight (ops : List Asg.St.Op) (x : Nat)
+    (hx : x < (Asg.St.run Asg.St.empty ops).doms.length)
+    (hne : (Asg.St.run Asg.St.empty ops).lb x ≤ (Asg.St.run Asg.St.empty ops).ub x) :
+    (Asg.St.run Asg.St.empty ops).contains x ((Asg.St.run Asg.St.empty ops).lb x) = true ∧
+    (Asg.St.run Asg.St.empty ops).contains x ((Asg.St.run Asg.St.empty ops).ub x) = true ∧
+    ∀ v, (Asg.St.run Asg.St.empty ops).contains x v = true →
+      (Asg.St.run Asg.St.empty ops).lb x ≤ v ∧ v ≤ (Asg.St.run Asg.St.empty ops).ub x :=
+  Asg.bounds_tight ops x hx hne
+
+/-- A value is in the domain of `x` exactly if the declared interval and every predicate currently on
+the trail over `x` allow it: nothing else is ever lost (no solution excluded by the store), nothing
+comes back. -/
+theorem store_domain_is_trail (ops : List Asg.St.Op) (x : Nat) (v : Int)
+    (hx : x < (Asg.St.run Asg.St.empty ops).doms.length) :
+    (Asg.St.run Asg.St.empty ops).contains x v = true ↔
+      ∀ e ∈ (Asg.St.run Asg.St.empty ops).trail, e.atom.var = x → e.allows v :=
+  Asg.mem_iff_trail ops x v hx
+
+/-- Posting a predicate removes exactly the values it excludes ("only ever tighten"), whatever the
+state of the update lists. -/
+theorem store_post_exact (s : Asg.St) (p : Atom) (hp : p.var < s.doms.length) (x : Nat) (v : Int) :
+    (s.post p).1.contains x v = true ↔ s.contains x v = true ∧ (x = p.var → p.holdsVal v = true) :=
+  Asg.post_contains s p hp x v
+
+/-- Backtracking gives back exactly the state in which the level was left. -/
+theorem store_backtrack_restores (ops ops' : List Asg.St.Op)
+    (h : ∀ k, Asg.St.Op.sync k ∈ ops' → (Asg.St.run Asg.St.empty ops).level < k) :
+    (Asg.St.run (Asg.St.run Asg.St.empty ops).newLevel ops').sync (Asg.St.run Asg.St.empty ops).level
+      = Asg.St.run Asg.St.empty ops :=
+  Asg.sync_restores _ (Asg.inv_run ops _ Asg.inv_empty) ops' h
+
+-- the hypotheses are met by a non-trivial history: a bound lands on a hole and skips it, a level is
+-- opened, the domain is emptied, and backtracking restores the state
+example :
+    let ops := [Asg.St.Op.grow 1 1, .grow 0 5, .post (.ne 1 2), .post (.ge 1 2)]
+    let s := Asg.St.run Asg.St.empty ops
+    s.lb 1 = 3 ∧ s.contains 1 2 = false ∧
+    (Asg.St.run s.newLevel [.post (.le 1 3), .post (.ne 1 3)]).lb 1 = 4 ∧
+    (Asg.St.run s.newLevel [.post (.le 1 3), .post (.ne 1 3)]).ub 1 = 2 ∧
+    (Asg.St.run s.newLevel [.post (.le 1 3), .post (.ne 1 3)]).sync s.level = s := by decide
 
 end Pumpkin.C12
